@@ -107,6 +107,10 @@ def manifest_engine_for(prop):
             for b in s["bad"]:
                 tag = b["kind"] + ("-" + b["field"] if b.get("field") else "")
                 viol.append(_viol(prop, tag, "manifest-" + fam, b))
+                if prop == "C11" and b["kind"] == "field":
+                    # a mis-evaluated command, description or path is also "not the declared
+                    # command / path of the step" (C10's statement)
+                    viol.append(_viol("C10", tag, "manifest-" + fam, b))
                 if b["kind"] in ("panic", "abort", "timeout"):
                     viol.append(_viol("C12", "manifest-" + b["kind"], "manifest-" + fam, b))
         return {"mc": mcs, "results": res, "viol": viol, "nvec": n, "nontrivial": nontriv,
